@@ -80,7 +80,7 @@ def sweep_cases():
                     n = 99
                 off = {"cls": "nesting-blowup", "kind": f"{kind}:{n}:alone", "lang": lang, "name": "case" + c11_pool.EXT[lang],
                        "data": c11_mut.blowup_text(lang, kind, n)}
-                out.append(_mk_case(f"sweep:{lang}:{kind}:{n}", off, "dry" if len(out) % 2 else "default", "files", len(out)))
+                out.append(_mk_case(f"sweep:{lang}:{kind}:{n}", off, "dry", "files", len(out)))
     return out
 
 
